@@ -47,6 +47,27 @@ NEEDS = {
  "C20B": ("C20", "process-wide 'last prepared G2' cache with key and payload under separate locks", "two threads preparing G2 points concurrently, one of them the most recently prepared point"),
 }
 
+# round 2 (agents were told which ideas had been used already); sources under /tmp/mut2/<Cxx>/_out/<A|B>, ids <Cxx>C / <Cxx>D
+NEEDS.update({
+ "C01C": ("C01", "add_assign: equal-point test on raw (x,y,z) placed before the general formula", "the same non-identity point in two different Jacobian representations: the sum collapses to the identity"),
+ "C01D": ("C01", "default sub_assign gains identity short-circuits; O - P returns P (negation forgotten)", "identity minuend (zero() or a computed identity) and a non-identity subtrahend"),
+ "C02C": ("C02", "wnaf_form removes the signed digit with a low-limb-only wrapping subtraction (carry into limb 1 dropped for negative digits)", "scalars with a long run of one bits at positions window..63 of the shifted low limb, e.g. 2^64 - 1"),
+ "C02D": ("C02", "mul_assign fast path uses add_assign_mixed with a hand-built affine copy when is_normalized()", "the projective identity as base with any non-zero scalar"),
+ "C03C": ("C03", "add_assign doubling test: u1 == u2 && self.y == other.y", "projective mul_assign with scalars whose prefix makes the accumulator equal the base in another representation: r+2, 2r+4, 2r+5"),
+ "C03D": ("C03", "G2Affine::perform_pairing returns Fq12::zero() when an operand is the identity", "pairing_with initiated from the G2 side with an identity operand"),
+ "C04C": ("C04", "Fq2 PartialOrd::partial_cmp chained with or_else: the c0 tie-break never fires", "compressed G2 decoding of an x whose y lies in Fq (y.c1 = 0): the wrong root is selected (points outside the subgroup; visible through the unchecked decoder and through <, >)"),
+ "C04D": ("C04", "G2Uncompressed masks the top three bits of byte 96 (y.c1) too", "uncompressed G2 string with y.c1 + k*2^381: accepted instead of a coordinate range error"),
+ "C05C": ("C05", "affine negate loses its identity guard + G1Compressed::from_affine computes the sort flag for infinity", "the G1 identity as an affine value, negated, then compressed: e0 00..00"),
+ "C05D": ("C05", "From<projective> for affine merges zero and Z = 1 into one is_normalized() fast path + G2Compressed writes x regardless of is_zero()", "a G2 identity with X != 0 (any cancelling sum) converted to affine and compressed"),
+ "C07C": ("C07", "batch_normalization backward pass filters with !is_zero()", "a batch holding an already-normalised non-identity point after an un-normalised one: outputs leave the curve"),
+ "C07D": ("C07", "map2_to_curve adds on the isogenous curve again, guarded only by u0 == u1", "distinct inputs whose SSWU images coincide"),
+ "C10C": ("C10", "Pippenger: empty bucket is loaded with (x, y, 1) of the affine point instead of add_assign_mixed", "an identity point in the list that is the first to hit its bucket"),
+ "C10D": ("C10", "sum_of_products_precomp_256 takes its count from pre.len() >> 8 instead of points.len()", "fewer points than scalars together with a table covering more points"),
+ "C19C": ("C19", "G2Affine compressed deserialize calls into_affine_unchecked", "compressed G2Affine stream of an on-curve point outside the subgroup"),
+ "C19D": ("C19", "Fq12 deserialize wraps the reader in a BufReader (read-ahead is lost)", "anything following the 576 bytes: more than 576 bytes are consumed"),
+})
+SRC_OVERRIDE = {n: "/tmp/mut2/%s/_out/%s" % (n[:3], "A" if n[3] == "C" else "B") for n in NEEDS if n[3] in "CD"}
+
 
 def first_line(path, pat):
     try:
@@ -63,7 +84,7 @@ def main():
     rows = []
     for name in sorted(NEEDS):
         prop, what, needs = NEEDS[name]
-        src = "/tmp/mut/%s/_out/%s" % (name[:3], name[3])
+        src = SRC_OVERRIDE.get(name, "/tmp/mut/%s/_out/%s" % (name[:3], name[3]))
         resf = "/tmp/mc/%s.result" % name
         if not os.path.exists(resf) or not os.path.exists(src + "/patch.diff"):
             # already collected earlier? keep the existing directory
